@@ -1,4 +1,5 @@
 """C12: raw vs parsed vs piecewise-parsed schemas under every public operation (V direction)."""
+import copy
 import io
 import json
 import random
@@ -43,8 +44,12 @@ def subset_render(g, ir, split, rnd):
         else:
             d["name"] = simple
             d["namespace"] = tns
+        if t.get("aliases"):
+            d["aliases"] = list(t["aliases"])
         if k == "enum":
             d["symbols"] = list(t["syms"])
+            if t.get("hasdef"):
+                d["default"] = t["default"]
         elif k == "fixed":
             d["size"] = t["size"]
         else:
@@ -53,6 +58,8 @@ def subset_render(g, ir, split, rnd):
                 fd = {"name": f["name"], "type": render(f["type"], tns, False)}
                 if f["hasdef"]:
                     fd["default"] = f["default"]
+                if f.get("aliases"):
+                    fd["aliases"] = list(f["aliases"])
                 d["fields"].append(fd)
         return d
 
@@ -67,7 +74,7 @@ def subset_render(g, ir, split, rnd):
     return pieces, top
 
 
-def run_ops(fa, schema, datum, seed, parsed_identity=None, defaulted=()):
+def run_ops(fa, schema, datum, seed, parsed_identity=None, defaulted=(), reader=None, wbytes=None):
     from fastavro import json_reader, json_writer
     from fastavro.schema import to_parsing_canonical_form
     from fastavro.utils import generate_many
@@ -112,6 +119,13 @@ def run_ops(fa, schema, datum, seed, parsed_identity=None, defaulted=()):
         return {"recs": [proj.pv(r) for r in json_reader(io.StringIO(t2), schema)]}
     if defaulted:
         attempt("jsondrop", jdrop if out["json"]["ok"] else lambda: 1 / 0)
+    if reader is not None and wbytes is not None:
+        # data written under the whole writer schema, read with writer and reader schema both in this form
+        def res():
+            fi = io.BytesIO(wbytes)
+            v = fa.schemaless_reader(fi, schema, reader)
+            return {"v": proj.pv(v), "pos": fi.tell()}
+        attempt("resolve", res)
     attempt("validate", lambda: {"v": proj.pv(validate(datum, schema, raise_errors=False))})
     attempt("canon", lambda: {"text": proj.cps(to_parsing_canonical_form(schema))})
 
@@ -156,8 +170,39 @@ def forms_case(fa, cid, g, ir, rnd):
         c["dropped"] = proj.pv({k: v for k, v in datum.items() if k not in defaulted})
     else:
         defaulted = []
+    # a reader schema derived by 1-2 compatible evolution steps, in the same three forms
+    rforms = {}
+    try:
+        gr = gen.Gen(rnd)
+        rir = copy.deepcopy(ir)
+        gr.defs = {n_["full"]: n_ for _, _, n_ in p_resolve.positions(rir) if n_["k"] in ("record", "enum", "fixed")}
+        steps = []
+        for _ in range(rnd.choice([1, 2])):
+            rir, st = p_resolve.evolve(rnd, gr, rir, True)
+            if st:
+                steps.append(st)
+        rraw = gr.render(rir)
+        rforms["raw"] = rraw
+        rforms["parsed"] = fa.parse_schema(rraw)
+        rnamed = [n for n in gr.defs if n != rir.get("full")]
+        if rnamed and "piecewise" in dict(forms):
+            rsplit = set(rnd.sample(rnamed, rnd.randint(1, len(rnamed))))
+            rpieces, rtop = subset_render(gr, rir, rsplit, rnd)
+            rshared = {}
+            for pc in rpieces:
+                fa.parse_schema(pc, rshared)
+            rforms["piecewise"] = fa.parse_schema(rtop, rshared)
+        fo = io.BytesIO()
+        fa.schemaless_writer(fo, raw, datum)
+        wbytes = fo.getvalue()
+        c["rschema"] = proj.pj(rraw)
+        c["rsteps"] = steps
+        c["wbytes"] = list(wbytes)
+    except Exception:  # noqa: BLE001 - no reader for this case (an evolution step produced something unparsable): the resolve clause is skipped
+        rforms = {}
+        wbytes = None
     for name, sch in forms:
-        ops = run_ops(fa, sch, datum, seed, defaulted=defaulted)
+        ops = run_ops(fa, sch, datum, seed, defaulted=defaulted, reader=rforms.get(name) if "rschema" in c else None, wbytes=wbytes)
         ops["form"] = name
         again = fa.parse_schema(sch) if name == "parsed" else None
         # "returns it unchanged": the same object for records (which carry the parsed marker), an equal schema otherwise
